@@ -34,3 +34,201 @@ Print Assumptions C15_exchange_fail_closed.
 Theorem C15_sync_async_same_source : twin_SyncRpcClient_bind = true /\ twin_SyncRpcClient_request = true.
 Proof. split; reflexivity. Qed.
 Print Assumptions C15_sync_async_same_source.
+
+(* =====================================================================================================
+   Whole runs of bind(): bind_run auth legs srv ctxs = (r, s), for ALL provider scripts `legs` and ALL
+   server scripts `srv` (no bound on either; the proofs are inductions over both).
+   Vocabulary (Proofs/C15.v): is_alter p (p is an AlterContext), alter_token / sent_ctxs / sent_flags (fields of a
+   PDU sent), reply_token (auth_value of an ack, None for other PDUs), has_flag a (a is an ack whose
+   packet_flags has PFC_SUPPORT_HEADER_SIGN, Z.land flags 4 <> 0), expected a e (a is the kind of ack awaited),
+   expect_at k (bind_ack for reply 0, alter_context_resp afterwards), fed_all consumed = None :: [Some (token or b"") of each reply].
+   ===================================================================================================== *)
+
+(* 1. tokens out: one Bind carrying the first leg's token and the offered contexts, then only AlterContext PDUs whose
+   tokens are the tokens of the next legs, in order, each once (a prefix of the remaining legs), all non-empty, and
+   whose contexts are exactly those the bind_ack accepted. (The Bind carries the first token even when it is empty:
+   on the wire that is a security trailer with auth_len = 0, which PDU.unpack reads back as "no trailer"; the
+   correspondence harness does not enumerate an empty FIRST token.) *)
+Theorem C15_tokens_out : forall l ls srv ctxs r s, bind_run true (l :: ls) srv ctxs = (r, s) ->
+  exists alters n,
+    trace s = SBind 4 (Some (leg_token l)) ctxs :: alters /\ (n <= length ls)%nat /\
+    Forall is_alter alters /\
+    map alter_token alters = map leg_token (firstn n ls) /\
+    Forall (fun t => t <> []) (map alter_token alters) /\
+    (alters = [] \/
+     exists rs fl tk rest acc, srv = RBindAck rs fl tk :: rest /\ accepted_contexts ctxs rs 0 = Ok acc /\
+       Forall (fun p => sent_ctxs p = acc) alters).
+Proof. exact tokens_out. Qed.
+Print Assumptions C15_tokens_out.
+
+(* 2. tokens in: step() receives None and then, in order, the token (or b"") of each reply consumed; there is one
+   step per PDU sent, plus one exactly when the last step (not the first) produced an empty token; every PDU
+   sent consumed one reply, except a last one answered by EOF. *)
+Theorem C15_tokens_in : forall l ls srv ctxs r s, bind_run true (l :: ls) srv ctxs = (r, s) ->
+  exists consumed, srv = consumed ++ server s /\
+    steps s = firstn (length (steps s)) (fed_all consumed) /\
+    (length (steps s) <= S (length consumed))%nat /\
+    (length (steps s) = length (trace s) \/ length (steps s) = S (length (trace s))) /\
+    (length (steps s) = S (length (trace s)) <->
+       (2 <= length (steps s))%nat /\
+       exists lg, nth_error (l :: ls) (length (steps s) - 1) = Some lg /\ leg_token lg = []) /\
+    (length consumed = length (trace s) \/
+     (S (length consumed) = length (trace s) /\ r = Raise EOFError /\ server s = [])).
+Proof. exact tokens_in. Qed.
+Print Assumptions C15_tokens_in.
+
+(* 3. stops: one leg per step; every leg used before the last step was incomplete, so there is no step after the
+   first complete leg; no PDU is sent for, or after, a later leg whose token is empty. *)
+Theorem C15_stops : forall l ls srv ctxs r s, bind_run true (l :: ls) srv ctxs = (r, s) ->
+  (length (steps s) <= length (l :: ls))%nat /\
+  (forall i lg, (S i < length (steps s))%nat -> nth_error (l :: ls) i = Some lg -> leg_complete lg = false) /\
+  (forall i lg, nth_error (l :: ls) i = Some lg -> leg_complete lg = true -> (length (steps s) <= S i)%nat) /\
+  (forall i lg, (1 <= i)%nat -> nth_error (l :: ls) i = Some lg -> leg_token lg = [] -> (length (trace s) <= i)%nat).
+Proof. exact stops. Qed.
+Print Assumptions C15_stops.
+
+(* 4. header signing: `processed` are the acks that went through _process_bind_ack (all replies consumed, except a
+   last one that raised); signing is on at the end iff every one of them carried the flag; the Bind offers the flag
+   (4, before FIRST|LAST are or-ed in) and PDU j offers it iff the first j acks all carried it, i.e. the state just before. *)
+Theorem C15_header_sign : forall l ls srv ctxs r s, bind_run true (l :: ls) srv ctxs = (r, s) ->
+  exists processed extra,
+    srv = processed ++ extra ++ server s /\
+    (extra = [] \/ exists rp e, extra = [rp] /\ r = Raise e) /\
+    (forall k a, nth_error processed k = Some a -> expected a (expect_at k) = true) /\
+    (length processed <= length (trace s) <= S (length processed))%nat /\
+    ((exists v, r = Ok v) -> length processed = length (trace s)) /\
+    sign s = forallb has_flag processed /\
+    (exists tk, nth_error (trace s) 0 = Some (SBind 4 tk ctxs)) /\
+    (forall j p, nth_error (trace s) j = Some p ->
+       sent_flags p = if forallb has_flag (firstn j processed) then 4 else 0).
+Proof. exact header_sign. Qed.
+Print Assumptions C15_header_sign.
+
+(* 5. fail closed, whole runs: if reply k (0-based) of those consumed is not the awaited acknowledgement (bind_nak,
+   fault, response, or the other ack type) the run is ValueError, it was the last reply read and exactly k+1 PDUs
+   were sent; if a PDU got no reply (EOF) the run is EOFError and that PDU was the last. *)
+Theorem C15_fail_closed : forall l ls srv ctxs r s consumed,
+  bind_run true (l :: ls) srv ctxs = (r, s) -> srv = consumed ++ server s ->
+  (length consumed <= length (trace s))%nat /\
+  (forall k rp, nth_error consumed k = Some rp -> expected rp (expect_at k) = false ->
+     r = Raise ValueError /\ length (trace s) = S k /\ length consumed = S k) /\
+  ((length consumed < length (trace s))%nat ->
+     r = Raise EOFError /\ server s = [] /\ length (trace s) = S (length consumed)).
+Proof. exact fail_closed. Qed.
+Print Assumptions C15_fail_closed.
+
+(* ... and these are the only ways it fails: EOF; a last reply of the wrong kind; an ack of the right kind whose
+   result vector is shorter than the contexts it answers (IndexError, not a deliberate error class);
+   or a provider that neither completes nor yields an empty token before its script ends (KeyError: outside the property). *)
+Theorem C15_error_causes : forall l ls srv ctxs e s, bind_run true (l :: ls) srv ctxs = (Raise e, s) ->
+  exists consumed, srv = consumed ++ server s /\
+    ((e = EOFError /\ server s = []) \/
+     (e = ValueError /\ exists c0 rp, consumed = c0 ++ [rp] /\ expected rp (expect_at (length c0)) = false) \/
+     (e = IndexError /\ exists c0 a cx, consumed = c0 ++ [a] /\ expected a (expect_at (length c0)) = true /\
+        accepted_contexts cx (reply_results a) 0 = Raise IndexError) \/
+     (e = KeyError /\ Forall (fun lg => leg_complete lg = false) (l :: ls) /\ Forall (fun lg => leg_token lg <> []) ls)).
+Proof. exact error_causes. Qed.
+Print Assumptions C15_error_causes.
+
+(* a successful authenticated bind returns the bind_ack's result vector *)
+Theorem C15_result : forall l ls srv ctxs r s, bind_run true (l :: ls) srv ctxs = (r, s) ->
+  forall v, r = Ok v -> exists fl tk rest, srv = RBindAck v fl tk :: rest.
+Proof. exact result_is_bind_ack. Qed.
+Print Assumptions C15_result.
+
+(* 6. anonymous bind: exactly one Bind, flags 0, no token, no step, no signing; the result is the bind_ack's or the error *)
+Theorem C15_anonymous : forall legs srv ctxs r s, bind_run false legs srv ctxs = (r, s) ->
+  trace s = [SBind 0 None ctxs] /\ steps s = [] /\ sign s = false /\
+  match srv with
+  | [] => r = Raise EOFError /\ server s = []
+  | RBindAck rs _ _ :: rest => r = Ok rs /\ server s = rest
+  | _ :: rest => r = Raise ValueError /\ server s = rest
+  end.
+Proof. exact anonymous. Qed.
+Print Assumptions C15_anonymous.
+
+(* "the contexts the bind_ack accepted" (acc in C15_tokens_out) are exactly the offered contexts whose result is
+   ACCEPTANCE (0), in order: accepted_of ctxs results = map fst (filter (result = 0) (combine ctxs results)) *)
+Theorem C15_accepted_contexts : forall ctxs results acc,
+  accepted_contexts ctxs results 0 = Ok acc ->
+  (length ctxs <= length results)%nat /\ acc = accepted_of ctxs results.
+Proof. exact accepted_contexts_exact. Qed.
+Print Assumptions C15_accepted_contexts.
+
+(* ---- concrete runs (the hypotheses above are met by each of them) ---- *)
+Definition lg (t : bytes) (c : bool) : leg := {| leg_token := t; leg_complete := c |}.
+Definition T1 : bytes := [84; 49].   Definition T2 : bytes := [84; 50].   Definition T3 : bytes := [84; 51].
+Definition S1 : bytes := [83; 49].   Definition S2 : bytes := [83; 50].
+
+(* three legs, header signing kept; contexts 0 and 1 offered, only 0 accepted *)
+Example C15_ex_three_legs :
+  bind_run true [lg T1 false; lg T2 false; lg T3 true]
+    [RBindAck [0; 2] 7 (Some S1); RAlterResp [0] 7 (Some S2); RAlterResp [0] 7 None] [0; 1]
+  = (Ok [0; 2],
+     {| trace := [SBind 4 (Some T1) [0; 1]; SAlter 4 T2 [0]; SAlter 4 T3 [0]];
+        steps := [None; Some S1; Some S2]; sign := true; server := [] |}).
+Proof. vm_compute. reflexivity. Qed.
+
+(* the second ack lacks PFC_SUPPORT_HEADER_SIGN: the flag is still offered in the PDU before it, not afterwards *)
+Example C15_ex_second_ack_without_flag :
+  bind_run true [lg T1 false; lg T2 false; lg T3 true]
+    [RBindAck [0; 2] 7 (Some S1); RAlterResp [0] 3 (Some S2); RAlterResp [0] 7 None] [0; 1]
+  = (Ok [0; 2],
+     {| trace := [SBind 4 (Some T1) [0; 1]; SAlter 4 T2 [0]; SAlter 0 T3 [0]];
+        steps := [None; Some S1; Some S2]; sign := false; server := [] |}).
+Proof. vm_compute. reflexivity. Qed.
+
+(* an empty final token: the last step is made, no PDU follows, the third reply is never read *)
+Example C15_ex_empty_final_token :
+  bind_run true [lg T1 false; lg T2 false; lg [] true]
+    [RBindAck [0; 2] 7 (Some S1); RAlterResp [0] 7 (Some S2); RAlterResp [0] 7 None] [0; 1]
+  = (Ok [0; 2],
+     {| trace := [SBind 4 (Some T1) [0; 1]; SAlter 4 T2 [0]];
+        steps := [None; Some S1; Some S2]; sign := true; server := [RAlterResp [0] 7 None] |}).
+Proof. vm_compute. reflexivity. Qed.
+
+(* a bind_nak as second reply: ValueError, exactly two PDUs, the third leg is never stepped *)
+Example C15_ex_bind_nak_second :
+  bind_run true [lg T1 false; lg T2 false; lg T3 true]
+    [RBindAck [0; 2] 7 (Some S1); RBindNak; RAlterResp [0] 7 None] [0; 1]
+  = (Raise ValueError,
+     {| trace := [SBind 4 (Some T1) [0; 1]; SAlter 4 T2 [0]];
+        steps := [None; Some S1]; sign := true; server := [RAlterResp [0] 7 None] |}).
+Proof. vm_compute. reflexivity. Qed.
+
+(* an ack without a security trailer, or with an empty auth_value, is fed to step() as b"" *)
+Example C15_ex_no_token_is_empty :
+  snd (bind_run true [lg T1 false; lg T2 false; lg T3 true]
+         [RBindAck [0] 7 None; RAlterResp [0] 7 (Some []); RAlterResp [0] 7 None] [0])
+  = {| trace := [SBind 4 (Some T1) [0]; SAlter 4 T2 [0]; SAlter 4 T3 [0]];
+       steps := [None; Some []; Some []]; sign := true; server := [] |}.
+Proof. vm_compute. reflexivity. Qed.
+
+(* corner of 1.: the FIRST token is sent in the Bind even when it is empty (only later empty tokens stop the loop) *)
+Example C15_ex_empty_first_token :
+  bind_run true [lg [] false; lg T2 true] [RBindAck [0] 7 (Some S1); RAlterResp [0] 7 None] [0]
+  = (Ok [0],
+     {| trace := [SBind 4 (Some []) [0]; SAlter 4 T2 [0]]; steps := [None; Some S1]; sign := true; server := [] |}).
+Proof. vm_compute. reflexivity. Qed.
+
+(* an alter_context_resp where the bind_ack is awaited (and EOF after the Bind) *)
+Example C15_ex_wrong_ack_type :
+  bind_run true [lg T1 true] [RAlterResp [0] 7 None] [0]
+  = (Raise ValueError, {| trace := [SBind 4 (Some T1) [0]]; steps := [None]; sign := true; server := [] |})
+  /\ bind_run true [lg T1 true] [] [0]
+  = (Raise EOFError, {| trace := [SBind 4 (Some T1) [0]]; steps := [None]; sign := true; server := [] |}).
+Proof. split; vm_compute; reflexivity. Qed.
+
+(* a result vector shorter than the contexts it answers surfaces as IndexError (see C15_error_causes) *)
+Example C15_ex_short_result_vector :
+  fst (bind_run true [lg T1 false; lg T2 true] [RBindAck [0] 7 (Some S1)] [0; 1]) = Raise IndexError
+  /\ fst (bind_run true [lg T1 false; lg T2 true] [RBindAck [0; 0] 7 (Some S1); RAlterResp [0] 7 None] [0; 1]) = Raise IndexError.
+Proof. split; vm_compute; reflexivity. Qed.
+
+Example C15_ex_accepted_of : accepted_of [5; 7; 9] [0; 2; 0; 0] = [5; 9] /\ accepted_contexts [5; 7; 9] [0; 2; 0; 0] 0 = Ok [5; 9].
+Proof. split; vm_compute; reflexivity. Qed.
+
+Example C15_ex_anonymous :
+  bind_run false [] [RBindAck [0; 2] 3 None; RFault] [0; 1]
+  = (Ok [0; 2], {| trace := [SBind 0 None [0; 1]]; steps := []; sign := false; server := [RFault] |}).
+Proof. vm_compute. reflexivity. Qed.
